@@ -9,7 +9,7 @@ Proved here by pyvc for every graph (ghost view of the incidence lists, row i = 
 With adj(i, j) := "j occurs in row i" (symmetric by the representation invariant of Graph, C04/graph_add_edge) this is
       exists rank, is_root.  (forall i. x_i -> (exists j. adj i j and rank j < rank i and x_j) or is_root i)
                               and at most one root,
-and lean/C04Connected.lean proves (Lean 4 + Mathlib, no sorry): that schema is satisfiable  <=>  any two active
+and lean/Encoders.lean (namespace C04) proves (Lean 4 + Mathlib, no sorry): that schema is satisfiable  <=>  any two active
 vertices are joined by a walk through active vertices (no active vertex counts as connected).
 """
 import z3 as _z3
@@ -42,8 +42,10 @@ class Flags(GhostVal):
         return T("root", j)
 
 
-@harness("C04", structural=True)
+@harness("C04", structural=True, cases=[dict(acyclic=False), dict(acyclic=True)])
 def connected_emission(case):
+    """acyclic=False: x_i -> count_true(lower active neighbours ++ [is_root i]) >= 1; acyclic=True: == 1, and
+    rank[i] != rank[j] is posted for every incident entry (j, e) of i with i < j (lemma C04T.enc_iff_tree)"""
     if CTX.mode != "sym":
         return
     n, m = sint("n"), sint("m")
@@ -84,6 +86,9 @@ def connected_emission(case):
     def end(ns, token):
         i = ns.i
         newp = posted[mark["p"]:]
+        if case.acyclic:
+            # (on the path that left the inner loop, only what was posted after it is in the log)
+            newp = newp[-1:]
         check("one-constraint-per-vertex", len(newp) == 1)
         if len(newp) != 1:
             return
@@ -93,9 +98,9 @@ def connected_emission(case):
         if not ok:
             return
         body = c.parts[1]
-        ok = isinstance(body, T) and body.tag == "cmp:GtE" and isinstance(body.parts[0], T) and body.parts[0].tag == "count_true" and body.parts[1] == 1 \
-            and len(body.parts[0].parts) == 1
-        check("and-asks-for-at-least-one-true-item", ok)
+        ok = isinstance(body, T) and body.tag == ("cmp:Eq" if case.acyclic else "cmp:GtE") and isinstance(body.parts[0], T) \
+            and body.parts[0].tag == "count_true" and body.parts[1] == 1 and len(body.parts[0].parts) == 1
+        check("and-asks-for-exactly-one-true-item" if case.acyclic else "and-asks-for-at-least-one-true-item", ok)
         if not ok:
             return
         items = body.parts[0].parts[0]
@@ -118,7 +123,28 @@ def connected_emission(case):
         last = interp().getitem(items, ln)
         check("last-item-is-this-vertex's-root-flag", isinstance(last, T) and last.tag == "root" and last.parts[0] == i)
 
-    loop_spec(K, 0, inv=lambda ns: [ns.i >= 0], modifies=[], types={"less_ranks": "opaque"}, at_head=head, at_end=end)
+    loop_spec(K, 0, inv=lambda ns: [ns.i >= 0], modifies=[], types={"less_ranks": "opaque", "j": "int"}, at_head=head, at_end=end)
+    if case.acyclic:
+        cur = {}
+        from contracts.c04_graph_plumbing import IncRowView as _Row
+
+        def head_in(ns):
+            mark["q"] = len(posted)
+            return None
+
+        def end_in(ns, token):
+            i, j = ns.i, ns.j
+            newq = posted[mark["q"]:]
+            if bool(i < j):
+                check("ranks-of-the-two-ends-are-constrained-different-once", len(newq) == 1)
+                if len(newq) == 1:
+                    c = newq[0]
+                    check("the-constraint-is-rank[i]!=rank[j]", isinstance(c, T) and c.tag == "cmp:NotEq" and
+                          ((_is_rank(c.parts[0], i) and _is_rank(c.parts[1], j)) or (_is_rank(c.parts[0], j) and _is_rank(c.parts[1], i))))
+            else:
+                check("no-constraint-from-the-larger-end", len(newq) == 0)
+
+        loop_spec(K, 1, inv=lambda ns: [ns.i >= 0, ns.i < n], modifies=[], types={"j": "int"}, at_head=head_in, at_end=end_in)
     # row entries: neighbours are vertices (representation invariant of Graph)
     orig = inc.pv_getitem
 
@@ -131,11 +157,19 @@ def connected_emission(case):
             assume_fact(mk_bool(_z3.And(t[0].t >= 0, t[0].t < n.t)))
             return t
         r.pv_getitem = getitem
+
+        def it_():
+            def one():
+                k = fresh_int("pos")
+                requires(And(k >= 0, k < SInt(LEN(_zint(v)))))
+                return getitem(k)
+            return AbstractSeq(one, "incident entries")
+        r.pv_iter = it_
         return r
 
     inc.pv_getitem = row
     n_before = len(posted)
-    o = call(REAL(GR, "_active_vertices_connected"), solver, xs, g, False, False)
+    o = call(REAL(GR, "_active_vertices_connected"), solver, xs, g, case.acyclic, False)
     check("no-exception", not o.raised)
     if o.raised:
         return
